@@ -342,11 +342,15 @@ void _vnacal_teardown_parameter_collection(vnacal_t *vcp)
     for (int i = vprmcp->vprmc_allocation - 1; i >= 0; --i) {
 	vnacal_parameter_t *vpmrp = vprmcp->vprmc_vector[i];
 
-	if (vpmrp != NULL) {
-	    assert(!vpmrp->vpmr_deleted);
+	/*
+	 * Drop the user's reference.  A parameter that another parameter
+	 * still refers to (the "other" of an unknown or correlated
+	 * parameter with a lower index), or that was already deleted by
+	 * the user while in use, goes away when its last holder does.
+	 */
+	if (vpmrp != NULL && !vpmrp->vpmr_deleted) {
 	    vpmrp->vpmr_deleted = true;
 	    _vnacal_release_parameter(vpmrp);
-	    assert(vprmcp->vprmc_vector[i] == NULL);
 	}
     }
     free((void *)vprmcp->vprmc_vector);
